@@ -1,4 +1,4 @@
-(* C07 - Drain processes everything accepted and admits nothing afterwards.
+(* C07 - Drain processes everything accepted and lets in nothing afterwards.
    Only statements, pins, non-vacuity examples and Print Assumptions.
    Model: Admission/Model.v (one step = one atomic operation of
    ractor/src/actor/actor_properties.rs send/drain paths + the processing loop);
@@ -21,11 +21,11 @@ Proof.
 Qed.
 
 (* the marker is the last item of the channel history and every accepted message precedes
-   it; no send is still admitted at that point *)
+   it; no send is still granted at that point *)
 Theorem C07_marker_after_accepted : forall s, reachable s -> In Marker (hist s) ->
   exists msgs, hist s = msgs ++ [Marker] /\ ~ In Marker msgs /\
     (forall i, result s i = Some ROk -> In (Msg i) msgs) /\
-    sumf admitted1 (ss s) = 0 /\ closed s = true.
+    sumf inflight1 (ss s) = 0 /\ closed s = true.
 Proof. intros s R. apply marker_after_accepted, reachable_inv, R. Qed.
 
 Theorem C07_marker_unique : forall s, reachable s -> markers (hist s) <= 1.
@@ -48,7 +48,7 @@ Proof. intros s R H ls. apply marker_last; auto. apply reachable_inv, R. Qed.
 Theorem C07_drained_once : forall s, reachable s ->
   length (exits s) <= 1 /\
   (forall r, cons s = CExit r \/ cons s = CDead r -> r = RDrained ->
-     In Marker (taken s) /\ handled s = accepted s /\ sumf admitted1 (ss s) = 0) /\
+     In Marker (taken s) /\ handled s = accepted s /\ sumf inflight1 (ss s) = 0) /\
   (forall r, exits s = [r] <-> cons s = CDead r).
 Proof. intros s R. apply drained_once, reachable_inv, R. Qed.
 
@@ -82,7 +82,7 @@ Check (C07_closed_rejects : forall ls1 ls2 j ok i r,
   (r = RInvalid /\ exists inf, nth_error (si (run (run init ls1) ls2)) i = Some inf /\ wrong inf = true)).
 
 (* ---- non-vacuity: the interleaving of the repository's own re-entrant test
-   (drain_defers_marker_for_reentrant_admitted_send) as an explicit schedule, plus a
+   (drain_defers_marker_for_reentrant_*_send, the crate test about a re-entrant send during a drain) as an explicit schedule, plus a
    three-thread schedule reaching the deferred-marker path ---- *)
 Definition msg (p : nat) (bx : list call) : call := CSend p false true false false bx [].
 
@@ -94,7 +94,7 @@ Example ex_reentrant :
       EEnd 4 (RErr 4); EHandle 1; EHandle 2; EExit RDrained], 6).
 Proof. vm_compute. reflexivity. Qed.
 
-(* label-level: sender 0 admitted, drainer closes and finds count 1 (gives up), sender
+(* label-level: sender 0 granted, drainer closes and finds count 1 (gives up), sender
    enqueues and its ticket drop emits the marker *)
 Definition ex_labels : list label :=
   [LSpawn (msg 1 []); LS 0; LS 0; LS 0; LS 0;           (* T0 S0 S1 SA -> S2g *)
